@@ -6,7 +6,7 @@ import importlib.util, os
 _p = os.path.join(os.path.dirname(os.path.abspath(__file__)), "C02.py")
 _s = importlib.util.spec_from_file_location("c02spec", _p); c02 = importlib.util.module_from_spec(_s); _s.loader.exec_module(c02)
 
-MODULES = ["c20"]
+MODULES = ["c20", "c02"]
 
 
 def claim(a, o):
@@ -21,3 +21,7 @@ KERNELS = [
       claims=[("Zoned::new(t, fixed(o)): offset == o, civil datetime == decomposition of t + o, instant unchanged", claim)],
       bounds=c02.B_TS, split=(0, {"quick": 32, "thorough": 128}), timeout=240),
 ]
+# The other direction (a Zoned reached from a civil datetime in a fixed zone, `DateTime::to_zoned` /
+# `Offset::to_timestamp`): the instant is exact and stored in the unique normal form, so that the derived
+# ==, ordering and hash of the (second, nanosecond) pair depend on the instant only. Same kernels as C02.
+KERNELS += [k for k in c02.KERNELS if k.name in ("c02::k_idt_to_ts", "c02::k_off_to_timestamp") and k.tier == "quick"]
